@@ -68,6 +68,11 @@ pub fn decode(cx: &mut Ctx, iters: usize) {
         cands.push(s.clone()); cands.push(&s + &qq); cands.push(fq().neg(&s)); cands.push(&s + n(1)); if s > n(0) { cands.push(&s - n(1)); }
         for bit in [0usize, 1, 7, 8, 64, 128, 250, 251, 252, 253, 254, 255] { cands.push(&s ^ (n(1) << bit)); }
     }
+    // valid and invalid encodings hugging the modulus and the limb boundaries
+    for k in 0..300u64 { cands.push(&qq - n(1) - n(2 * k)); }
+    for v in boundary(&qq) { cands.push(&v - (&v % n(2))); cands.push(v); }
+    let top = &qq >> 192usize << 192usize;
+    for k in 0..40u64 { cands.push(&top + n(2 * k)); if top > n(2 * k + 2) { cands.push(&top - n(2 * k + 2)); } }
     for v in [&qq - n(2), &qq - n(1), qq.clone(), &qq + n(1), &qq + n(2), n(1) << 253, (n(1) << 253) - n(1), &two256 - n(1), n(1) << 255, n(1) << 254, n(1) << 252] { cands.push(v); }
     for _ in 0..iters { cands.push(cx.rng.below(&two256)); { let v = cx.rng.below(&qq); cands.push(&v - (&v % n(2))); } }
     for v in cands.iter() {
@@ -237,6 +242,26 @@ pub fn eqhash(cx: &mut Ctx, iters: usize) {
         cx.eq("== default()", &d, *p == Element::default(), isid);
         let ap: Affine = (*p).into();
         cx.eq("AffineRepr::is_zero", &d, ap.is_zero(), isid);
+        // every way of arriving at the identity (both curve points (0, 1) and (0, -1), any Z) is one element
+        let minus_one = fr_of(&(r() - n(1)));
+        let ids: Vec<(&str, Element)> = vec![("P - P", *p - *p), ("P + (-P)", *p + (-*p)), ("P + (r-1)*P", *p + *p * minus_one),
+                                             ("(r-1)*P + P", *p * minus_one + *p), ("-(P - P)", -(*p - *p))];
+        for (nm, z) in ids.iter() {
+            let dz = || format!("P = {}, identity obtained as {}", hp, nm);
+            let za: Affine = (*z).into();
+            let da: Affine = Element::default().into();
+            cx.eq("identity form == default()", &dz, *z == Element::default(), true);
+            cx.eq("identity form hashes like default()", &dz, crate::curve_ark::h(z) == crate::curve_ark::h(&Element::default()), true);
+            cx.eq("affine identity form == affine default", &dz, za == da, true);
+            cx.eq("affine identity form hashes like affine default", &dz, crate::curve_ark::h(&za) == crate::curve_ark::h(&da), true);
+            cx.eq("affine identity form is_zero", &dz, za.is_zero(), true);
+            cx.eq("identity form encodes to zero bytes", &dz, z.vartime_compress().0, [0u8; 32]);
+        }
+        // the other representative of P (P + (0, -1)) as an affine point
+        let two_torsion = *p + (Element::GENERATOR * minus_one + Element::GENERATOR);
+        let (ta, pa): (Affine, Affine) = (two_torsion.into(), (*p).into());
+        cx.eq("P + identity form: affine ==", &d, ta == pa, true);
+        cx.eq("P + identity form: affine hash", &d, crate::curve_ark::h(&ta) == crate::curve_ark::h(&pa), true);
     }
 }
 
